@@ -36,7 +36,8 @@ def gen(ctx, bare):
         nx, nu = rng.randint(1, 3), rng.choice([0, 1, 2])
         ep = rng.random() < 0.75
         # lengths include 1 and 2
-        eps, order = pipes.gen_layout(rng, 1, extra=4, ep=ep)
+        # (one case in twelve: many episodes - 17 or 24 - with gapped labels, beyond any small-count fast path)
+        eps, order = pipes.gen_layout(rng, 1, extra=4, ep=ep, n_eps=(rng.choice([17, 24]) if ep and rng.random() < 0.08 else None))
         rows = pipes.tagged_matrix(rng, order, nx + nu, 2, 60)
         if not ep:
             rows = [r[1:] for r in rows]
